@@ -252,3 +252,54 @@ def write_evidence(prop, tier, seed, level, coverage, wall, violations, assumpti
 
 def hexf(x):
     return float(x).hex()
+
+
+def execute_mt(tag, builddir, ty, groups, free=False, env=None, tv_env=None, nchunks=NCPU):
+    """groups: list of dict(scen=[scenario,...], schedule=[..], quantum=int).  Each group is one sluh_mt process (its
+    scenarios run first alone, then concurrently); traces of a chunk of groups are concatenated and validated by TLC.
+    Returns results like execute(); results carry 'san' = list of (group scenario ids, sanitizer log text)."""
+    wd = workdir("run_" + tag)
+    exe = os.path.join(builddir, "sluh_mt_" + ty)
+    k = max(1, min(nchunks, (len(groups) + 19) // 20))
+    chunks = [groups[c::k] for c in range(k)]
+
+    def one(ci):
+        part = chunks[ci]
+        base = os.path.join(wd, "%s_%02d" % (ty, ci))
+        scen = {}
+        san = []
+        with open(base + ".ndjson", "w") as out:
+            for gi, grp in enumerate(part):
+                pref = "%s.g%04d" % (base, gi)
+                write_script(pref + ".txt", grp["scen"])
+                cmd = [exe] + (["--free"] if free else ["--schedule", ",".join(map(str, grp["schedule"])), "--quantum", str(grp["quantum"])]) + [pref + ".txt", pref]
+                e = dict(os.environ); e["OPENBLAS_NUM_THREADS"] = "1"; e["OMP_NUM_THREADS"] = "1"
+                if env:
+                    e.update(env)
+                    for kk in ("TSAN_OPTIONS",):
+                        if kk in e:
+                            e[kk] = e[kk] + ":log_path=" + pref + ".san"
+                try:
+                    r = subprocess.run(cmd, env=e, stdout=subprocess.DEVNULL, stderr=subprocess.DEVNULL, timeout=120)
+                    rc = r.returncode
+                except subprocess.TimeoutExpired:
+                    rc = -14
+                for s in grp["scen"]:
+                    scen[s["id"]] = s
+                files = [pref + ".solo.ndjson"] + [pref + ".%d.ndjson" % t for t in range(len(grp["scen"]))]
+                for f in files:
+                    if os.path.exists(f):
+                        txt = open(f).read()
+                        # a thread that died leaves an unterminated scenario: keep complete lines only
+                        out.write("".join(ln + "\n" for ln in txt.split("\n") if ln.endswith("}")))
+                if rc != 0:
+                    status = "sanitizer" if rc == 96 else ("timeout" if rc == -14 else "crash")
+                    out.write(json.dumps({"e": "Done", "id": grp["scen"][0]["id"], "status": status, "sig": -rc if rc < 0 else 0, "code": rc, "pid": 0}) + "\n")
+                logs = "".join(open(f, errors="replace").read() for f in glob.glob(pref + ".san*"))
+                if logs:
+                    san.append(([s["id"] for s in grp["scen"]], logs))
+        verdicts, st = validate_trace(base + ".ndjson", tag="%s_%s_%02d" % (tag, ty, ci), env=tv_env)
+        return {"ty": ty, "script": base + ".txt", "trace": base + ".ndjson", "log": base + ".log", "verdicts": verdicts, "stats": st, "scen": scen, "san": san}
+
+    with ThreadPoolExecutor(max_workers=NCPU) as ex:
+        return list(ex.map(one, range(len(chunks))))
